@@ -7,7 +7,11 @@ judge traces of the real implementation (family `c10judge` of the driver).
 
 * An authentication result may be served from the cache at `t` only while `t < exp + validity leeway`
   (that is exactly while a fresh answer with that expiry would still be accepted).
-* A cached verification key may be used at `t` only while `t ≤ NotAfter` of its certificate.
+* A cached verification key may be used at `t` only while `t ≤ NotAfter` of its certificate. "Its certificate" is the
+  key's own (end-entity) certificate, the first element of the `x5c` chain: that is the certificate the JWK is bound
+  to (go-jose checks that its public key is the JWK's key) and the one `validateJWK` validates, the further chain
+  elements being only intermediates for building its path. The `NotAfter` of an issuing CA that lies *later* never
+  extends this bound; an implementation that also stops at an *earlier* CA expiry would be stricter than required.
 * A token obtained or issued by a finalizer may be handed out at `t` only while `t < exp`.
 * A cached HTTP response may be served at `t` only while its age `t − received` does not exceed its freshness
   lifetime (RFC 7234 section 4.2.1, private cache: `max-age`, else `Expires − Date`; an `Expires` value that is not
@@ -17,18 +21,18 @@ judge traces of the real implementation (family `c10judge` of the driver).
 namespace Heimdall.Validity
 
 /-- may a result of mechanism `m`, cached as `it`, be reused at time `t` -/
-def mayReuse (m : Mech) (cfg : Option Int) (vl : Nat) (it : Item (Option Int)) (t : Int) : Bool :=
+def mayReuse (m : Mech) (cfg : Option Int) (vl : Nat) (it : Item Answer) (t : Int) : Bool :=
   match m with
   | .introspection | .generic =>
-    match it.ans with
+    match it.ans.exp with
     | some e => decide (t < e + validityLeeway m vl)
     | none => true
   | .jwtKey =>
-    match it.ans with
+    match it.ans.exp with
     | some e => decide (t ≤ e)
     | none => true
   | .clientCreds =>
-    match it.ans with
+    match it.ans.exp with
     | some e => decide (t < e)
     | none => true
   | .jwtFinalizer => decide (t < it.time + tokenLifetime cfg)
